@@ -2,7 +2,33 @@
 NOTES = ("Contract-based deductive verification with CBMC code contracts on the real sources; see DESIGN.md. "
          "exit 0 = all obligations discharged, exit 1 = VIOLATION, exit 2 = undecided (tool limit / time-out / broken anchor).")
 NOT_CLAIMED = {}
+_IAUTH_NOTE = ("callees are replaced by their executable contracts (spec/iauth_model.h: assert precondition, perform the specified effect on the request and the "
+               "ghost log) and each contract is discharged on the real function in its own job; set.c is used through its sorted-map contract (spec/set_model.h), "
+               "discharged for the real splay tree in C19 up to N elements; libevent, logging and stdio by contract (stubs/env_iauth.c); histories are covered by "
+               "induction over the request invariant INV (DESIGN section 4), not by enumeration. No native replay driver for protocol-step obligations: the replay "
+               "file carries the counterexample state; defects found were reproduced on the daemon with the histories under findings/.")
 CLAIMS = {
+ "C01": dict(
+  text="Per-function contracts over a ghost log of server-channel events: the gate, the three verdict functions, soft-done, every data handler, "
+       "registration/disconnect and client announcement are each proved (real body, all inputs) to emit at most one verdict and one soft-done, to retire the "
+       "request exactly once, to leave its id unknown afterwards and never to emit anything naming a retired request (precondition of the send contract).",
+  design_ref="§5 C01", note=_IAUTH_NOTE, technique="CBMC per-function proofs with callee contracts over ghost state; induction over a request invariant"),
+ "C02": dict(
+  text="The single acceptance gate iauth_check_request is proved equivalent to the property's condition (no hard hold, undecided, all required data or hurry-up, "
+       "nothing awaited unless the timeout expired); the hold counters are tied to '+! without stamp' and 'a service is awaited' by INV, whose preservation is "
+       "proved for the reply handler, the query builder, the password handlers and the timeout handler.",
+  design_ref="§5 C02/C03", note=_IAUTH_NOTE + " Service table bounded to 2-3 slots in the xquery jobs (bounded stand-in, hence model_checking).",
+  technique="CBMC per-function proofs: gate postcondition + invariant preservation with callee contracts"),
+ "C03": dict(
+  text="Every state-changing step (each data handler, password, hurry-up, timeout, each reply kind) is proved to end with 'no live client that is ready and "
+       "awaits nothing is left waiting' and with INV re-established, from an arbitrary INV state - so no history can leave such a client stuck.",
+  design_ref="§5 C02/C03", note=_IAUTH_NOTE + " Service table bounded to 2-3 slots in the xquery jobs (bounded stand-in, hence model_checking).",
+  technique="CBMC per-function proofs: step postcondition 'gate closed or verdict issued' + invariant preservation"),
+ "C10": dict(
+  text="parse_new_client / parse_registered / parse_disconnect with the real disposal callback are proved to keep the table size equal to announced-and-not-retired, "
+       "to replace a live id by disposing the old record, and to release the request's timer and module data exactly once.",
+  design_ref="§5 C10", note=_IAUTH_NOTE + " Real timer behaviour (a freed event never fires) is libevent's (S3).",
+  technique="CBMC per-function proofs over the set contract with ghost counters"),
  "C12": dict(
   text="print->parse round trip on the real irc_ntop/irc_pton: fits IRC_NTOP_MAX, NUL-terminated, never starts with ':', own parser and the "
        "RFC 4291 reference parser read back exactly the (canonicalised) address, parse-then-print idempotent. Sharded by the zero-group pattern "
